@@ -428,7 +428,10 @@ func (an *Analysis) createType(typ types.Type, ctx context) Type {
 			return str
 		} else {
 			// otherwise, analyze the underlying type
-			under := an.handleType(typ.Underlying(), ctx).(AnonymousType)
+			under, isAnonymous := an.handleType(typ.Underlying(), ctx).(AnonymousType)
+			if !isAnonymous {
+				panic("unsupported named type " + typ.String())
+			}
 			return &Named{name: name, Underlying: under}
 		}
 	}
